@@ -52,6 +52,17 @@ var mutants = []mutant{
 	{"C17-null-not-absent", "C17", "object/object.go", "if value, ok := o[key]; !ok || value == nil {", "if value, ok := o[key]; !ok {", "C17.R4"},
 	{"C19-cache-2q", "C19", "jtp/jtp.go", "lru.New[string, bundle](config.Parsed.Network.CacheSize)", "lru.New2Q[string, bundle](config.Parsed.Network.CacheSize)", "C19.R3"},
 	{"C19-signed-parse", "C19", "config/config.go", "r, err := strconv.ParseUint(text[1:3], 16, 0)", "r, err := strconv.ParseInt(text[1:3], 16, 0)", "C19.R2"},
+	// C18
+	{"C18-back-unguarded", "C18", "history/history.go", "\tif h.index > 0 {\n\t\th.index -= 1", "\tif h.index >= 0 {\n\t\th.index -= 1", "C18.R1"},
+	{"C18-forward-past-end", "C18", "history/history.go", "if len(h.elements) > h.index+1 {", "if len(h.elements) >= h.index+1 {", "C18.R1"},
+	{"C18-add-keeps-forward-entries", "C18", "history/history.go", "h.elements = append(h.elements[:h.index+1], element)", "h.elements = append(h.elements, element)", "C18.R1"},
+	{"C18-add-drops-current", "C18", "history/history.go", "h.elements = append(h.elements[:h.index+1], element)", "h.elements = append(h.elements[:h.index], element)", "C18.R1"},
+	{"C18-moveup-wrong-guard", "C18", "feed/feed.go", "\tif f.Contains(-1) {\n\t\tf.index -= 1", "\tif f.Contains(1) {\n\t\tf.index -= 1", "C18.R2"},
+	{"C18-contains-inclusive", "C18", "feed/feed.go", "return f.index+offset < f.upperBound && f.index+offset > f.lowerBound", "return f.index+offset <= f.upperBound && f.index+offset > f.lowerBound", "C18.R2"},
+	{"C18-append-overwrites-last", "C18", "feed/feed.go", "f.feed[f.upperBound+i] = element", "f.feed[f.upperBound+i-1] = element", "C18.R3"},
+	{"C18-prepend-bound-short", "C18", "feed/feed.go", "f.lowerBound -= len(input)", "f.lowerBound -= len(input) - 1", "C18.R3"},
+	{"C18-parent-includes-opened", "C18", "feed/feed.go", "return f.index+offset < 0", "return f.index+offset <= 0", "C18.R4"},
+	{"C18-get-off-by-one", "C18", "feed/feed.go", "return f.feed[f.index+offset]\n}\n\nfunc (f *Feed) Current", "return f.feed[f.index+offset+1]\n}\n\nfunc (f *Feed) Current", "C18.R4"},
 	// C16
 	{"C16-spare-row-unfixed", "C16", "ansi/ansi.go", "\tif topBufferSize == 0 {\n", "\tif topBufferSize == 0 && prefixHeight == 0 {\n", "C16.R1"},
 	{"C16-odd-row-dropped", "C16", "ansi/ansi.go", "bottomBufferSize := topBufferSize + totalBufferSize%2", "bottomBufferSize := topBufferSize", "C16.R1"},
